@@ -183,6 +183,9 @@ def observe(P, post=None, max_steps=None, P_csv=None):
             o['n_calc'] = hk.n['calc']
             o['msgs'] = [m for lv, m in e.messages
                          if lv in ('ERROR', 'CRITICAL')]
+            if not o['msgs'] and len(e.messages) >= 200:
+                # env's capture buffer was full of warnings
+                o['msgs'] = ['(log capture full before the exit)']
             if not o['msgs']:
                 o['outcome'] = 'exit_silent'
             elif o['n_calc'] > 0:
@@ -1881,7 +1884,8 @@ def _brief(o):
 
 def run_valid(case, res):
     rng = np.random.default_rng(case['seed'])
-    quick_cap = 6000
+    thorough = (case.get('tier') == 'thorough')
+    cap = 30000 if thorough else 6000
     if case['kind'] == 'option':
         opt = [o for o in OPTIONS if o['id'] == case['opt']][0]
         needs = [n for n in opt['needs']]
@@ -1900,8 +1904,13 @@ def run_valid(case, res):
                                 'duct_average']),
             empty_frac=0.2, max_rings=4)
         label = 'core'
-    o = observe(P, max_steps=quick_cap if case.get('tier') != 'thorough'
-                else 40000)
+        cap = 8000 if thorough else 3000
+    o = observe(P, max_steps=cap)
+    for k in ('gap', 'n_duct', 'lf', 'tdep', 'conv_approx'):
+        if k in feats:
+            res.tag('A_%s=%s' % (k, feats[k]))
+    if feats.get('regions'):
+        res.tag('A_with_axial_regions')
     res.d['obs'] = {'part': 'A', 'id': label, 'outcome': o['outcome']}
     res.tag('A:%s' % o['outcome'])
     res.stat('A_steps', o['steps'])
@@ -2020,6 +2029,55 @@ def extra_coverage(results):
 
 # ----------------------------------------------------------------------
 
+
+FINDINGS = {
+    'F4': 'required axial step floors to 0 (np.floor(min_dz*1e6)/1e6) or a '
+          'zero / sub-micron axial_mesh_size is taken over: '
+          'Reactor._setup_zpts never advances (or needs > 2e5 steps)',
+    'F12': 'spacer-grid correlation with default solidity in an SI input: '
+           'ValueError "Cannot convert unit to itself" in check_spacergrid',
+    'F21': 'wire_pitch = 0 with wire_diameter > 0 accepted: '
+           'ZeroDivisionError in the friction / flow-split correlations',
+    'F22': 'SpacerGrid loss_coeff = 0 is treated as "not given": '
+           'AssertionError in RoddedRegion._setup_spacer_grid',
+    'F23': 'nan / inf literals pass ConfigObj validation, the Assignment '
+           'parser and the power CSV reader',
+    'F24': 'unreadable power CSV (non-numeric token, ragged rows, header, '
+           'empty file, unknown component id): numpy/Python exception '
+           'escapes power._from_file',
+    'F25': 'duplicated item index in the power CSV: reshape ValueError '
+           '(one axial cell) or silently accepted (several cells)',
+    'F26': 'power profile longer than Core/length accepted: the length it '
+           'is compared with is derived from the profile itself',
+    'F27': 'power CSV axial cell with z_lo > z_hi accepted',
+    'F28': 'AxialRegion with zero height accepted: the height loop skips '
+           'the first (sorted) region',
+    'F29': 'AxialRegion overlap across the pin bundle accepted (sign-blind '
+           'count in _check_reg_bnds); no bundle left: IndexError',
+    'F30': 'nested ducts that touch or overlap (bypass gap <= 0) accepted',
+    'F31': 'unknown AxialRegion model name: NotImplementedError traceback '
+           'instead of an input error',
+    'F32': 'template key bypass_gap_loss_coeff: every value raises '
+           'NotImplementedError at set-up',
+    'F33': 'dummy_pin input: KeyError "n_ring" in check_dummy_pin',
+    'F34': 'spacer-grid correlation with a MIT/NOV/SE2 flow split: '
+           'TypeError (unexpected keyword "grid")',
+    'F35': 'bypass_fraction = 1 accepted: ZeroDivisionError in '
+           'Reactor._calculate_total_fr',
+    'F36': 'bypass_gap_flow_fraction has no bounds: >= 1 hangs set-up or '
+           'gives nan temperatures',
+    'F37': 'outlet temperature <= inlet (or a temperature-rise condition '
+           'with zero power): ValueError / TypeError / no progress',
+    'F38': 'conv_approx with an unrodded region limiting the step of a pin '
+           'assembly: TypeError ("int" not subscriptable) - valid inputs',
+    'F39': 'non-numeric token in an Assignment line: ValueError traceback',
+    'F40': 'user coolant with zero thermal conductivity accepted: '
+           'ZeroDivisionError (Prandtl number)',
+    'F41': 'assembly without rows in the user power CSV: KeyError "dif3d"',
+    'F42': 'pin_pitch == pin_diameter accepted: nan step requirement',
+    'F43': 'AxialRegion vf_coolant = 0 accepted: no progress / nan / '
+           'TypeError',
+}
 
 # Known mechanisms. Each rule is (finding id, predicate on the violation key).
 # Rules are tried in order; a violation that matches none stays unclassified
